@@ -90,9 +90,15 @@ Definition C01_checks (su : pair_summary) (fa fb : side_final)
      | Some (side_a, lh, raddr) =>
        if su_restarted su then true else
        let f := if side_a then fa else fb in
+       (* the nominating side is on the pair of the highest value it issued, and the other side is on
+          the same pair (seen from its end) *)
        match sf_sel f with
        | Some (h, a) => (h =? lh) && addr_eqb a raddr
        | None => false
+       end &&
+       match sel_indices_a su fa, sel_indices_b su fb with
+       | Some x, Some y => nat_pair_eqb x y
+       | _, _ => false
        end
      | None => true
      end) ].
